@@ -81,8 +81,11 @@ def directed_cases(tier):
 def _make_audit(path, content_dir):
     from bob.audit import Audit
     from bob.utils import hashDirectory
+    import datetime
     h = hashDirectory(content_dir)
     a = Audit.create(bytes([1] * 20), BID, h)
+    # simulated clock: the build date is part of the record (and of the artifact size)
+    a._Audit__artifact.reset(bytes([1] * 20), BID, h, datetime.datetime(2020, 1, 1, tzinfo=datetime.timezone.utc))
     a.addDefine("recipe", "r"); a.addDefine("package", "p"); a.addDefine("step", "dist")
     a.save(path)
     try:
